@@ -21,97 +21,130 @@ EXTENDS WalletFund, Json, IOUtils, Sequences
 Log == ndJsonDeserialize(IOEnv.TRACE)
 N == Len(Log)
 
-VARIABLE l          \* next line to consume
-tvars == <<vars, l>>
+VARIABLES l,        \* next line to consume sequentially
+          pend      \* lines of the current Par block that are still to be consumed (any order)
+tvars == <<vars, l, pend>>
 
-Ev == Log[l]
-Step(op) == l <= N /\ Ev.op = op /\ l' = l + 1
 ToSet(seq) == {seq[i] : i \in DOMAIN seq}
 MadeOf(seq) == {[id |-> seq[i][1], v |-> seq[i][2]] : i \in DOMAIN seq}
 DescOf(x, ver, out) == [tid |-> x.tid, ver |-> ver, ins |-> ToSet(x.ins), out |-> out, fee |-> x.fee,
                         made |-> MadeOf(x.made)]
-Report(what, want) == PrintT("OUT " \o ToJson([line |-> l, what |-> what, ev |-> Ev, want |-> want]))
+Report(i, E, what, want) == PrintT("OUT " \o ToJson([line |-> i, what |-> what, ev |-> E, want |-> want]))
 
 \* enumeration constants of WalletFund.Next are not used here
 TCfgs == {}
 TWallets == {}
 
 TraceInit ==
-    /\ l = 1
+    /\ l = 1 /\ pend = {}
     /\ cfg = [dt |-> 0, mi |-> 0, md |-> 0, rt |-> 0]
     /\ owned = <<>> /\ locked = <<>> /\ txs = <<>>
     /\ now = 0 /\ nextId = 1 /\ nextTx = 1
     /\ act = [op |-> "Init"] /\ reply = NoReply
 
-TReset ==
-    /\ Step("Reset")
-    /\ cfg' = [dt |-> Ev.cfg.dt, mi |-> Ev.cfg.mi, md |-> Ev.cfg.md, rt |-> Ev.cfg.rt]
-    /\ owned' = [i \in {Ev.owned[j][1] : j \in DOMAIN Ev.owned} |->
-                   LET j == CHOOSE k \in DOMAIN Ev.owned : Ev.owned[k][1] = i
-                   IN [v |-> Ev.owned[j][2], m |-> Ev.owned[j][3]]]
+TReset(i, E) ==
+    /\ E.op = "Reset"
+    /\ cfg' = [dt |-> E.cfg.dt, mi |-> E.cfg.mi, md |-> E.cfg.md, rt |-> E.cfg.rt]
+    /\ owned' = [k \in {E.owned[j][1] : j \in DOMAIN E.owned} |->
+                   LET j == CHOOSE q \in DOMAIN E.owned : E.owned[q][1] = k
+                   IN [v |-> E.owned[j][2], m |-> E.owned[j][3]]]
     /\ locked' = <<>> /\ txs' = <<>>
-    /\ now' = 0 /\ nextId' = Ev.nid /\ nextTx' = 1
+    /\ now' = 0 /\ nextId' = E.nid /\ nextTx' = 1
     /\ act' = [op |-> "Init"] /\ reply' = NoReply
 
 \* a selection with a duplicated input: reported; the harness released it at once, so the
 \* reservation state is unchanged provided the (distinct) inputs were free before
-TFundDup ==
-    /\ Ev.r = "ok" /\ Ev.dup
-    /\ Report({"dup-input"} \cup (IF ToSet(Ev.d[1].ins) \subseteq May(Ev.unc) THEN {} ELSE {"ineligible"}), [may |-> May(Ev.unc)])
-    /\ act' = FundLabel(Ev.ver, Ev.amt, Ev.unc) /\ reply' = NoReply
+TFundDup(i, E) ==
+    /\ E.r = "ok" /\ E.dup /\ pend = {}
+    /\ Report(i, E, {"dup-input"} \cup (IF ToSet(E.d[1].ins) \subseteq May(E.unc) THEN {} ELSE {"ineligible"}), [may |-> May(E.unc)])
+    /\ act' = FundLabel(E.ver, E.amt, E.unc) /\ reply' = NoReply
     /\ UNCHANGED svars
 
-TFund ==
-    /\ Step("Fund")
-    /\ \/ Ev.r = "zero" /\ FundZero(Ev.ver, Ev.amt, Ev.unc)
-       \/ Ev.r = "nef" /\ FundFail(Ev.ver, Ev.amt, Ev.unc)
-       \/ Ev.r = "ok" /\ ~Ev.dup /\ Ev.cons /\ FundOK(Ev.ver, Ev.amt, Ev.unc, DescOf(Ev.d[1], Ev.ver, Ev.amt))
-       \/ TFundDup
+TFund(i, E) ==
+    /\ E.op = "Fund"
+    /\ \/ E.r = "zero" /\ FundZero(E.ver, E.amt, E.unc)
+       \/ E.r = "nef" /\ FundFail(E.ver, E.amt, E.unc)
+       \/ E.r = "ok" /\ ~E.dup /\ E.cons /\ FundOK(E.ver, E.amt, E.unc, DescOf(E.d[1], E.ver, E.amt))
+       \/ TFundDup(i, E)
 
-TRedist ==
-    /\ Step("Redist")
-    /\ \/ Ev.r = "none" /\ RedistNone(Ev.n, Ev.amt, Ev.feeub)
-       \/ Ev.r = "nef" /\ RedistFail(Ev.n, Ev.amt, Ev.feeub)
-       \/ Ev.r = "ok" /\ Ev.cons /\ RedistOK(Ev.n, Ev.amt, Ev.feeub, {DescOf(Ev.d[j], 2, 0) : j \in DOMAIN Ev.d})
+TRedist(i, E) ==
+    /\ E.op = "Redist"
+    /\ \/ E.r = "none" /\ RedistNone(E.n, E.amt, E.feeub)
+       \/ E.r = "nef" /\ RedistFail(E.n, E.amt, E.feeub)
+       \/ E.r = "ok" /\ E.cons /\ RedistOK(E.n, E.amt, E.feeub, {DescOf(E.d[j], 2, 0) : j \in DOMAIN E.d})
 
-TSplit ==
-    /\ Step("Split")
-    /\ \/ Ev.r = "none" /\ SplitNone(Ev.n, Ev.min)
-       \/ Ev.r = "err" /\ SplitErr(Ev.n, Ev.min)
-       \/ Ev.r = "ok" /\ Ev.cons /\ SplitOK(Ev.n, Ev.min, DescOf(Ev.d[1], 2, 0))
+TSplit(i, E) ==
+    /\ E.op = "Split"
+    /\ \/ E.r = "none" /\ SplitNone(E.n, E.min)
+       \/ E.r = "err" /\ SplitErr(E.n, E.min)
+       \/ E.r = "ok" /\ E.cons /\ SplitOK(E.n, E.min, DescOf(E.d[1], 2, 0))
 
-TRelease  == Step("Release")  /\ Release(Ev.tid)
-TRelBegin == Step("RelBegin") /\ RelBegin(Ev.tid)
-TRelEnd   == Step("RelEnd")   /\ RelEnd(Ev.tid)
-TTick     == Step("Tick")     /\ Tick
-TBcast    == Step("Bcast")    /\ \/ Ev.r = "acc" /\ BcastAcc(Ev.tid)
-                                 \/ Ev.r = "rej" /\ BcastRej(Ev.tid)
-TMine     == Step("Mine")     /\ Mine
-TReward   == Step("Reward")   /\ Reward(Ev.v, Ev.id)
-TRestart  == Step("Restart")  /\ Restart
+TRelease(i, E)  == E.op = "Release"  /\ Release(E.tid)
+TRelBegin(i, E) == E.op = "RelBegin" /\ RelBegin(E.tid)
+TRelEnd(i, E)   == E.op = "RelEnd"   /\ RelEnd(E.tid)
+TTick(i, E)     == E.op = "Tick"     /\ Tick
+TBcast(i, E)    == E.op = "Bcast"    /\ \/ E.r = "acc" /\ BcastAcc(E.tid)
+                                        \/ E.r = "rej" /\ BcastRej(E.tid)
+TMine(i, E)     == E.op = "Mine"     /\ Mine
+TReward(i, E)   == E.op = "Reward"   /\ Reward(E.v, E.id)
+TRestart(i, E)  == E.op = "Restart"  /\ Restart
 
 \* Balance() and SpendableOutputs() against the three views; disagreement is reported
-TObs ==
-    /\ Step("Obs")
-    /\ LET bad == (IF Ev.sp # BalSpendable THEN {"balance-spendable"} ELSE {})
-                  \cup (IF Ev.conf # BalConfirmed THEN {"balance-confirmed"} ELSE {})
-                  \cup (IF Ev.imm # BalImmature THEN {"balance-immature"} ELSE {})
-                  \cup (IF Ev.unc # BalUnconfirmed THEN {"balance-unconfirmed"} ELSE {})
-                  \cup (IF ToSet(Ev.list) # ListSpendable THEN {"spendable-list"} ELSE {})
+TObs(i, E) ==
+    /\ E.op = "Obs"
+    /\ LET bad == (IF E.sp # BalSpendable THEN {"balance-spendable"} ELSE {})
+                  \cup (IF E.conf # BalConfirmed THEN {"balance-confirmed"} ELSE {})
+                  \cup (IF E.imm # BalImmature THEN {"balance-immature"} ELSE {})
+                  \cup (IF E.unc # BalUnconfirmed THEN {"balance-unconfirmed"} ELSE {})
+                  \cup (IF ToSet(E.list) # ListSpendable THEN {"spendable-list"} ELSE {})
        IN IF bad = {} THEN TRUE
-          ELSE Report(bad, [sp |-> BalSpendable, conf |-> BalConfirmed, imm |-> BalImmature,
-                            unc |-> BalUnconfirmed, list |-> ListSpendable,
-                            v2spent |-> PoolSpentBy({2}) \cap ToSet(Ev.list)])
+          ELSE pend = {} /\    \* inside a Par block a wrong view just rules this order out
+               Report(i, E, bad, [sp |-> BalSpendable, conf |-> BalConfirmed, imm |-> BalImmature,
+                                  unc |-> BalUnconfirmed, list |-> ListSpendable,
+                                  v2spent |-> PoolSpentBy({2}) \cap ToSet(E.list)])
     /\ Obs
 
-TraceNext == TReset \/ TFund \/ TRedist \/ TSplit \/ TRelease \/ TRelBegin \/ TRelEnd \/ TTick
-             \/ TBcast \/ TMine \/ TReward \/ TRestart \/ TObs
+\* the two views on their own (one wallet call each; the gated pairs race them separately)
+TObsBal(i, E) ==
+    /\ E.op = "ObsBal"
+    /\ E.sp = BalSpendable /\ E.conf = BalConfirmed /\ E.imm = BalImmature /\ E.unc = BalUnconfirmed
+    /\ Obs
+TObsList(i, E) ==
+    /\ E.op = "ObsList"
+    /\ ToSet(E.list) = ListSpendable
+    /\ Obs
+
+(* Concurrent calls.  {"op":"Par","n":k} announces that the next k lines are calls whose
+   call/return intervals all overlapped in real time (recorded by the gated driver: the second
+   call was started while the first was parked inside one of the wallet's calls into the chain
+   manager / store / syncer).  Real-time order says nothing about them, so TLC consumes them in
+   ANY order: the run is accepted iff SOME linearization is a behaviour of WalletFund -- whose
+   actions are atomic, i.e. exactly what the wallet mutex has to provide -- with every invariant
+   (Disjoint, LiveValid, PoolValid, ...) evaluated in every state on the way. *)
+TPar(i, E) ==
+    /\ E.op = "Par" /\ pend = {}
+    /\ l' = l + 1 + E.n
+    /\ pend' = (l + 1)..(l + E.n)
+    /\ UNCHANGED vars
+
+Cand == IF pend = {} THEN (IF l <= N THEN {l} ELSE {}) ELSE pend
+Advance(i) == IF pend = {} THEN l' = l + 1 /\ pend' = {} ELSE l' = l /\ pend' = pend \ {i}
+
+TraceNext ==
+    \E i \in Cand : LET E == Log[i] IN
+        \/ TPar(i, E)
+        \/ /\ E.op # "Par"
+           /\ Advance(i)
+           /\ \/ TReset(i, E) \/ TFund(i, E) \/ TRedist(i, E) \/ TSplit(i, E) \/ TRelease(i, E)
+              \/ TRelBegin(i, E) \/ TRelEnd(i, E) \/ TTick(i, E) \/ TBcast(i, E) \/ TMine(i, E)
+              \/ TReward(i, E) \/ TRestart(i, E) \/ TObs(i, E) \/ TObsBal(i, E) \/ TObsList(i, E)
 
 TraceSpec == TraceInit /\ [][TraceNext]_tvars
 
 \* high-water mark of consumed lines (needs -workers 1)
+Consumed == l - 1 - Cardinality(pend)
 ASSUME TLCSet(1, 0)
-HWM == TLCSet(1, IF l - 1 > TLCGet(1) THEN l - 1 ELSE TLCGet(1))
+HWM == TLCSet(1, IF Consumed > TLCGet(1) THEN Consumed ELSE TLCGet(1))
 TraceAccepted ==
     /\ PrintT(<<"HWM", TLCGet(1), "of", N>>)
     /\ TLCGet(1) = N
